@@ -21,6 +21,9 @@ VENV_PY = os.environ.get('TREETOOLS_PY', '/venv/bin/python')
 NCPU = os.cpu_count() or 4
 
 
+UNDEFINED = {}     # trace module -> ids of cases on which TLC could not evaluate the specification
+
+
 class MachineryError(Exception):
     """exit 2: the framework itself failed (never a property verdict)."""
 
@@ -239,23 +242,50 @@ def validate_traces(work, module, cases, header=None, cfg=None, chunk=1500,
         finally:
             sub.close()
 
-    with ThreadPoolExecutor(max_workers=procs) as ex:
-        results = list(ex.map(one, files))
-    for fn, r in zip(files, results):
-        if r.rc != 0 or r.errors:
+    undefined = []
+
+    def solve(fn, ch, depth=0):
+        """validate one chunk; if TLC fails while evaluating it, bisect down to the offending cases so that the
+        verdicts of all other cases are still obtained (an operator undefined on an observed state must not hide
+        what the rest of the run shows)"""
+        r = one(fn)
+        if r.rc == 0 and not r.errors:
+            return list(r.verdicts)
+        if 'Parsing or semantic analysis failed' in r.out or r.rc == -9 or 'OutOfMemoryError' in r.out \
+                or len(undefined) > 25:
+            os.makedirs(os.path.join(VERIF, 'out'), exist_ok=True)
+            with open(os.path.join(VERIF, 'out', 'last_tlc_error.log'), 'w') as f_:
+                f_.write(r.out)
+            raise MachineryError('trace validation (%s) failed on %s: rc=%s %s'
+                                 % (module, fn, r.rc, r.errors[:3]))
+        if len(ch) == 1:
             os.makedirs(os.path.join(VERIF, 'out'), exist_ok=True)
             with open(os.path.join(VERIF, 'out', 'last_tlc_error.log'), 'w') as f_:
                 f_.write(r.out)
             shutil.copy(fn, os.path.join(VERIF, 'out', 'last_trace_chunk.json'))
-            tail = '\n'.join([x for x in r.out.splitlines() if not x.startswith('  |')][-30:])
-            raise MachineryError('trace validation (%s) failed on %s: rc=%s %s\n%s'
-                                 % (module, fn, r.rc, r.errors[:3], tail))
-        for v in r.verdicts:
+            undefined.append(ch[0]['id'])
+            return [{'id': ch[0]['id'], 'failed': [], 'tags': [], 'nontrivial': False, 'undefined': True}]
+        out = []
+        mid = len(ch) // 2
+        for part_no, part in enumerate((ch[:mid], ch[mid:])):
+            doc = dict(header or {})
+            doc['cases'] = part
+            fn2 = '%s.%d%d.json' % (fn[:-5], depth, part_no)
+            with open(fn2, 'w') as f:
+                json.dump(doc, f)
+            out.extend(solve(fn2, part, depth + 1))
+        return out
+
+    with ThreadPoolExecutor(max_workers=procs) as ex:
+        results = list(ex.map(lambda a: solve(a[0], a[1]), zip(files, chunks)))
+    for vs in results:
+        for v in vs:
             if v['id'] in verdicts:
                 # TLC may evaluate an action twice; identical verdicts are fine
                 if verdicts[v['id']] != v:
                     raise MachineryError('two different verdicts for %s' % v['id'])
             verdicts[v['id']] = v
+    UNDEFINED[module] = undefined
     missing = [c['id'] for c in cases if c['id'] not in verdicts]
     if missing:
         raise MachineryError('trace validation (%s): %d cases without verdict, e.g. %s'
@@ -384,6 +414,11 @@ class Report(object):
         for ln in lines:
             print(ln)
         sys.stdout.flush()
+        undef = [i for ids in UNDEFINED.values() for i in ids]
+        if undef:
+            log('specification not evaluable on %d recorded cases, e.g. %s (see out/last_tlc_error.log)' % (len(undef), undef[:3]))
+            if not nviol:
+                raise MachineryError('specification not evaluable on recorded cases %s' % undef[:5])
         return 1 if nviol else 0
 
 
